@@ -145,6 +145,7 @@ type Frame struct {
 	cur    *Term // current guard (reach of current block)
 	dbg    map[string][]ssa.Value
 	top    bool
+	noFreeze bool
 }
 
 type retPoint struct {
@@ -201,17 +202,16 @@ func (fr *Frame) oblige(kind, label string, props []string, goal *Term, pos toke
 		return
 	}
 	g := Implies(fr.cur, goal)
-	if g == TTrue {
-		// trivially true; still counted as discharged-by-construction? skip silently
-		ex.addFact(g)
-		return
-	}
 	base := ex.fname + "/" + fr.prefix + kind + "/" + label
 	name := ex.oblName(base)
 	if ex.c != nil && (kind == "safe" || kind == "term" || strings.HasPrefix(kind, "loop") && strings.HasPrefix(label, "variant") || len(props) == 0) {
 		props = unionProps(props, ex.c.Props)
 	}
 	o := &Obligation{ex: ex, base: base, pos: pos, Name: name, Func: ex.fname, Kind: kind, Props: props, NFacts: len(ex.facts), Facts: ex.facts, Goal: g, Where: ex.p.srcLine(pos)}
+	if g == TTrue {
+		// holds by construction of the terms (e.g. code and spec build the same term)
+		o.Verdict, o.Solver, o.Facts = "unsat", "syntactic", nil
+	}
 	ex.obls = append(ex.obls, o)
 	ex.addFact(g)
 }
@@ -283,6 +283,12 @@ func (ex *Exec) zero(t types.Type) *Term {
 	case *types.Signature:
 		return IntLit(0)
 	case *types.Struct:
+		if s == SStr {
+			return w.StrLit("")
+		}
+		if s.S == "RV" {
+			return App("mkRV", s, VNil, TFalse, TFalse)
+		}
 		if s == SNode {
 			return MkNode(IntLit(0), VNil, ConstArray(SArray(SInt, SNode), mk("NodeBottom", SNode)), IntLit(0))
 		}
@@ -380,7 +386,9 @@ func (fr *Frame) term(v *GVal) *Term {
 		var base *Term
 		es := w.SliceInfoOfSort(w.SortOf(v.Typ)).Elem
 		if v.Reg != nil {
-			v.Reg.frozen = true
+			if !fr.noFreeze {
+				v.Reg.frozen = true
+			}
 			base = ex.st.cells[v.Reg]
 		} else {
 			base = w.SlArr(v.T)
@@ -393,6 +401,13 @@ func (fr *Frame) term(v *GVal) *Term {
 		ex.p.DeclareFun(sname, []*Sort{SArray(SInt, es), SInt}, SArray(SInt, es))
 		ex.p.assumptions["array shift: shift(a,k)[j] == a[k+j] (instantiated at reads)"] = true
 		return w.MkSlice(es, App(sname, SArray(SInt, es), base, v.Off), v.Len, TFalse)
+	}
+	if v.T == nil && v.Origin != nil {
+		// a map (or slice) living in a local cell, used as a value: snapshot
+		if v.Origin.Cell != nil && !fr.noFreeze {
+			v.Origin.Cell.frozen = true
+		}
+		return fr.load(v.Origin)
 	}
 	if v.T == nil {
 		ex.unsupp("value without term")
@@ -767,7 +782,13 @@ func (fr *Frame) findLoops() {
 		heads = append(heads, h)
 	}
 	// order loops by source position of the loop (header's first positioned instruction / comment)
-	sort.Slice(heads, func(i, j int) bool { return fr.loopPos(heads[i]) < fr.loopPos(heads[j]) })
+	sort.Slice(heads, func(i, j int) bool {
+		pi, pj := fr.loopPos(heads[i]), fr.loopPos(heads[j])
+		if pi != pj {
+			return pi < pj
+		}
+		return heads[i].Index < heads[j].Index
+	})
 	for i, h := range heads {
 		li := fr.loops[h]
 		li.ordinal = i + 1
@@ -784,6 +805,10 @@ func (fr *Frame) loopPos(h *ssa.BasicBlock) token.Pos {
 	li := fr.loops[h]
 	for b := range li.body {
 		for _, in := range b.Instrs {
+			switch in.(type) {
+			case *ssa.Phi, *ssa.DebugRef:
+				continue // positions of variable declarations, possibly outside the loop
+			}
 			if p := in.Pos(); p.IsValid() && p < best {
 				best = p
 			}
